@@ -463,3 +463,65 @@ func (e *Exec) resolveAddr(s *StrV, typ string) Value {
 	e.store(e.ipField(c, "Zone"), concStr(s.Zone))
 	return TupleV{PtrV{C: c}, IfaceV{}}
 }
+
+// decLen: number of decimal digits of an unsigned term.
+func (e *Exec) decLen(t *Term) *Term {
+	tc := e.tc
+	w := t.S.W
+	res := tc.Const(64, 1)
+	lim := uint64(10)
+	for d := 2; d <= 20; d++ {
+		if w < 64 && lim > mask(w) {
+			break
+		}
+		res = tc.Ite(tc.Cmp(OULE, tc.Const(w, lim), t), tc.Const(64, uint64(d)), res)
+		if lim > (^uint64(0))/10 {
+			break
+		}
+		lim *= 10
+	}
+	return res
+}
+
+// ipTextLen is the exact length of net.IP.String() for a 4- or 16-byte address.
+func (e *Exec) ipTextLen(ip []*Term) *Term {
+	tc := e.tc
+	c := func(v uint64) *Term { return tc.Const(64, v) }
+	v4len := func(b []*Term) *Term {
+		sum := c(3)
+		for _, x := range b {
+			sum = tc.Bin(OAdd, sum, e.decLen(x))
+		}
+		return sum
+	}
+	if len(ip) == 4 {
+		return v4len(ip)
+	}
+	g := make([]*Term, 8)
+	zero := make([]*Term, 8)
+	total := c(0)
+	for i := 0; i < 8; i++ {
+		g[i] = tc.Concat(ip[2*i], ip[2*i+1])
+		zero[i] = tc.Eq(g[i], tc.Const(16, 0))
+		d := tc.Ite(tc.Cmp(OULT, g[i], tc.Const(16, 0x10)), c(1), tc.Ite(tc.Cmp(OULT, g[i], tc.Const(16, 0x100)), c(2), tc.Ite(tc.Cmp(OULT, g[i], tc.Const(16, 0x1000)), c(3), c(4))))
+		total = tc.Bin(OAdd, total, d)
+	}
+	res := tc.Bin(OAdd, total, c(7)) // no compression
+	// choose the first longest zero run of length >= 2: build from the weakest candidate up
+	for L := 2; L <= 8; L++ {
+		for i := 8 - L; i >= 0; i-- {
+			run := tc.And(zero[i : i+L]...)
+			before, after := i, 8-i-L
+			colons := 2
+			if before > 0 {
+				colons += before - 1
+			}
+			if after > 0 {
+				colons += after - 1
+			}
+			l := tc.Bin(OAdd, tc.Bin(OSub, total, c(uint64(L))), c(uint64(colons)))
+			res = tc.Ite(run, l, res)
+		}
+	}
+	return tc.Ite(e.isMapped(ip), v4len(ip[12:]), res)
+}
